@@ -24,7 +24,7 @@ ASSUMPTIONS = [
     "absent entries differ from every present entry by far more than the library's documented fuzzy entry equality (rel 1e-9)",
     "deleteEntry of an absent entry must raise (any exception type)",
 ]
-REQUIRED_CLASSES = ["history:collision_by_nanoseconds", "history:delete_absent_same_time", "history:collision_merge_many", "history:collision_replace", "history:delete_absent",
+REQUIRED_CLASSES = ["history:insert_before_span_of_empty_tier", "history:collision_by_nanoseconds", "history:delete_absent_same_time", "history:collision_merge_many", "history:collision_replace", "history:delete_absent",
                     "history:insert_outside_span", "history:point_collision"]
 
 
@@ -116,6 +116,8 @@ def run_history(case):
             lo, hi = entry[0], (entry[1] if model.is_int else entry[0])
             if lo < model.minT or hi > model.maxT:
                 classes.add("insert_outside_span")
+                if lo < model.minT and not model.entries:
+                    classes.add("insert_before_span_of_empty_tier")
             try:
                 with quiet() as out:
                     tier.insertEntry(arg, op["mode"], op["report"])
@@ -216,12 +218,14 @@ def histories(draw):
         for e in ents:
             if not ents2 or e[0] >= ents2[-1][1]:
                 ents2.append(e)
-        spec = {"type": "interval", "name": "t", "entries": ents2, "minT": 0.0,
+        spec = {"type": "interval", "name": "t", "entries": ents2, "minT": min([e[0] for e in ents2] + [draw(st.sampled_from([0.0, 0.0, 2.0]))]),
                 "maxT": max([e[1] for e in ents2] + [draw(st.sampled_from([1.0, 3.0]))]), "style": style}
     else:
         ts = sorted(draw(st.lists(lat, min_size=n0, max_size=n0, unique=True)))
-        spec = {"type": "point", "name": "p", "entries": [[t, draw(lab)] for t in ts], "minT": 0.0,
+        spec = {"type": "point", "name": "p", "entries": [[t, draw(lab)] for t in ts], "minT": min(ts + [draw(st.sampled_from([0.0, 0.0, 2.0]))]),
                 "maxT": max(ts + [draw(st.sampled_from([1.0, 3.0]))]), "style": style}
+    if spec["maxT"] <= spec["minT"]:
+        spec["maxT"] = spec["minT"] + 1.0
     ops = []
     for _ in range(draw(st.integers(1, 10))):
         if draw(st.integers(0, 3)) > 0:
